@@ -11,10 +11,12 @@
 // Composition obligations (c_expand_enc_keys, c_enc_block, c_dec_block, p_enc_par) replace `transform` and `sub_bytes` by
 // the tagged transcript oracle lemmas.rs `tro` on the real side and the corresponding reference functions by the same
 // oracle on the reference side (linear in the number of calls).
-// OPEN: `transform` itself is only covered at ONE byte position of ONE table (c_transform_enc_3, bounded).  Also tried:
+// OPEN: `transform` itself is only covered at ONE byte position of ONE table (c_transform_pos3, bounded).  Also tried:
 // `transform(b, t)` for a fully symbolic block against a table reference that points into a plain nondeterministic
 // `[u8; 65536]` local (no `Align16` struct object, so that CBMC's array theory could be used): out of memory after 200 s
-// (the reinterpretation as `[[u128; 256]; 16]` is lowered to a 4096-element array expression per read).
+// (the reinterpretation as `[[u128; 256]; 16]` is lowered to a 4096-element array expression per read); the same with the
+// table reference pointing into a nondeterministic `[[u128; 256]; 16]` (plain word reads, statement transform(b, t) =
+// XOR_i W[i][b_i]): timeout at 900 s on cadical.
 // @module file=kuznyechik/src/big_soft/backends.rs
 // @config name=soft rustflags='--cfg kuznyechik_backend="soft"'
 use super::*;
@@ -64,53 +66,8 @@ macro_rules! transform_at { ($name:ident, $table:ident, $i:expr) => {
         assert!(r == spec_transform_table(word(&b), &$table));
     }
 }; }
-// @ob name=c_transform_enc_3 tier=thorough cfg=soft props=C07,C20 kind=bounded bound="block = unit_3(v), v symbolic" fn=kuznyechik::big_soft::backends::transform timeout=3600
-transform_at!(c_transform_enc_3, ENC_TABLE, 3);
-
-// `transform` for EVERY table content and every block, in two steps:
-//  (A) c_transform_words: transform(b, t) = XOR_i W[i][b_i] where W is the table's storage read as [[u128; 256]; 16] (as
-//      `transform` itself reads it).  The table reference points into a nondeterministic object of that word type, so that
-//      the sixteen symbolic reads are plain array reads (array theory) - a `Table` object proper (a struct around
-//      [u8; 65536]) is flattened by CBMC into one bit-vector and every symbolic-offset read then exhausts memory.
-//      `transform` only sees a `&Table`; Rust memory is untyped, so "every content of the 65536 bytes" is covered.
-//  (B) c_view_enc / c_view_dec (exhaustive, concrete): for the two real tables, W[i][v] is the little-endian word of
-//      entry (i, v) = the 16 bytes at offset 16 * (256 * i + v), for every i, v.
-pub type Words = [[u128; 256]; 16];
-pub fn words_of(t: &Table) -> &Words { unsafe { &*(t.0.as_ptr().cast()) } }
-#[kani::proof]
-#[kani::unwind(17)]
-fn c_transform_words() {
-    let raw: Words = kani::any();
-    let t: &Table = unsafe { &*(raw.as_ptr() as *const Table) };
-    let b: u128 = kani::any();
-    let bb = bytes(b);
-    let mut acc = 0u128;
-    let mut i = 0;
-    while i < 16 {
-        acc ^= raw[i][bb[i] as usize];
-        i += 1;
-    }
-    assert!(transform(b, t) == acc);
-    assert!(core::mem::size_of::<Words>() == core::mem::size_of::<Table>());
-}
-macro_rules! view_eq { ($name:ident, $table:ident) => {
-    #[kani::proof]
-    #[kani::unwind(257)]
-    fn $name() {
-        let w = words_of(&$table);
-        let mut i = 0;
-        while i < 16 {
-            let mut v = 0;
-            while v < 256 {
-                assert!(w[i][v] == word(&entry(&$table, i, v as u8)));
-                v += 1;
-            }
-            i += 1;
-        }
-    }
-}; }
-view_eq!(c_view_enc, ENC_TABLE);
-view_eq!(c_view_dec, DEC_TABLE);
+// @ob name=c_transform_pos3 tier=thorough cfg=soft props=C07,C20 kind=bounded bound="block = unit_3(v), v symbolic" fn=kuznyechik::big_soft::backends::transform timeout=3600
+transform_at!(c_transform_pos3, ENC_TABLE, 3);
 
 // @ob name=c_sub_bytes cfg=soft props=C07,C20 fn=kuznyechik::big_soft::backends::sub_bytes timeout=300
 #[kani::proof]
@@ -161,7 +118,7 @@ pub fn tr_sub_bytes(block: u128, sbox: &[u8; 256]) -> u128 {
 }
 
 // the 32 constants are read from KEYGEN by the real code and from the checked table CREF by the reference; 32 oracle calls
-// @ob name=c_expand_enc_keys cfg=soft props=C07,C20 fn=kuznyechik::big_soft::backends::expand_enc_keys uses=c_transform_enc_3,c_enc_table_lo,c_enc_table_hi,c_ls_table,l_l_decomp,c_keygen,c_cref_lo,c_cref_hi timeout=600
+// @ob name=c_expand_enc_keys cfg=soft props=C07,C20 fn=kuznyechik::big_soft::backends::expand_enc_keys uses=c_transform_pos3,c_enc_table_lo,c_enc_table_hi,c_ls_table,l_l_decomp,c_keygen,c_cref_lo,c_cref_hi timeout=600
 #[kani::proof]
 #[kani::stub(transform, tr_transform)]
 #[kani::stub(bcref::kuznyechik::lsx, tro::lsx)]
@@ -214,7 +171,7 @@ pub fn dec_block(rk: &RoundKeys, b: [u8; 16]) -> [u8; 16] {
 }
 
 // for every value of the ten round keys and every block
-// @ob name=c_enc_block cfg=soft props=C07,C20 fn=kuznyechik::big_soft::backends::EncBackend::encrypt_block uses=c_transform_enc_3,c_enc_table_lo,c_enc_table_hi,c_ls_table,l_l_decomp timeout=600
+// @ob name=c_enc_block cfg=soft props=C07,C20 fn=kuznyechik::big_soft::backends::EncBackend::encrypt_block uses=c_transform_pos3,c_enc_table_lo,c_enc_table_hi,c_ls_table,l_l_decomp timeout=600
 #[kani::proof]
 #[kani::stub(transform, tr_transform)]
 #[kani::stub(bcref::kuznyechik::lsx, tro::lsx)]
@@ -232,7 +189,7 @@ fn c_enc_block() {
 
 // for every value of the ten decryption words (with dk = spec_inv_keys(K) this is the standard's D under K:
 // lemmas.l_dec_dk_is_standard).  The first stage uses S^-1(S(x)) = x (lemmas.l_s_inverse), see `tro::sd_first`.
-// @ob name=c_dec_block cfg=soft props=C07,C20 fn=kuznyechik::big_soft::backends::DecBackend::decrypt_block uses=c_transform_enc_3,c_dec_table_lo,c_dec_table_hi,c_slinv_table,l_linv_decomp,c_sub_bytes,l_s_inverse timeout=600
+// @ob name=c_dec_block cfg=soft props=C07,C20 fn=kuznyechik::big_soft::backends::DecBackend::decrypt_block uses=c_transform_pos3,c_dec_table_lo,c_dec_table_hi,c_slinv_table,l_linv_decomp,c_sub_bytes,l_s_inverse timeout=600
 #[kani::proof]
 #[kani::stub(transform, tr_transform)]
 #[kani::stub(sub_bytes, tr_sub_bytes)]
@@ -257,7 +214,7 @@ fn c_dec_block() {
 // transform (transcript oracle: the three single-block calls are recorded, the parallel function, which interleaves the
 // lanes, must ask exactly the same questions: parallel call p = 3 * round + lane).  The keys are not written.
 pub type Par = ParBlocks<EncBackend<'static>>;
-// @ob name=p_enc_par cfg=soft props=C04,C20 fn=kuznyechik::big_soft::backends::EncBackend::encrypt_par_blocks,kuznyechik::big_soft::backends::EncBackend::encrypt_block uses=c_transform_enc_3 timeout=600
+// @ob name=p_enc_par cfg=soft props=C04,C20 fn=kuznyechik::big_soft::backends::EncBackend::encrypt_par_blocks,kuznyechik::big_soft::backends::EncBackend::encrypt_block uses=c_transform_pos3 timeout=600
 #[kani::proof]
 #[kani::stub(transform, tr_transform)]
 #[kani::unwind(65)]
